@@ -24,41 +24,41 @@ CLAIMED = {
     "C07": dict(
         text="Lean theorems about a character-level model of the parser (everything accepted is well-formed and in range; rejection classes; macros = expansions; whitespace insignificant; missing year = every year); tie: regenerated bounds/glossaries/macro table + accept/reject differential on grammar, invalid-by-construction, single-edit mutant and raw-byte streams, meaning compared through NextFireTime.",
         note="Go regexp/strconv/strings/unicode behaviour is re-implemented in the model and compared, not verified",
-        technique="Lean 4 proofs about a parser model + regenerated facts + differential correspondence",
+        technique="Lean 4 proofs about a parser model (its integer helpers and boundary table TRANSLATED from quartz/cron.go on every run and proved equal: trans_inScope, trans_fillRangeValues, trans_fillStepValues, trans_boundaryTable) + regenerated facts + differential correspondence",
         ref="DESIGN.md §6 C07"),
 }
 
 CLAIMED["C11"] = dict(
     text="Lean theorems about a transcription of container/heap (up/down/Push/Pop/Remove on an array) and of quartz/queue.go: heap order and key uniqueness are invariants of every operation sequence (C11_inv_reachable), Pop/Head return a minimum, Get/Remove address the entry with that key, duplicate pushes are rejected unless Replace and then replace exactly that entry, ScheduledJobs returns exactly the entries satisfying all matchers, string operators mean prefix/suffix/infix/equality. Tie: exact differential execution incl. heap array order against quartz.NewJobQueue() (random and exhaustive-small op sequences) plus an abstract key->entry map oracle in the harness.",
     note="container/heap is modelled (transcribed) and compared, not verified; thread safety: every exported method runs under the queue's mutex from its first statement (regenerated fact), hence C11_linearizable / C11_concurrent_inv for every interleaving; sync.Mutex = mutual exclusion is trusted",
-    technique="Lean 4 invariant + refinement proofs over all op sequences + linearizability theorem from regenerated lock facts + exact differential correspondence + concurrent-history linearizability search",
+    technique="Lean 4 invariant + refinement proofs over all op sequences about definitions TRANSLATED on every run from quartz/queue.go, matcher/*.go and the toolchain's container/heap (gotolean-queue; translated = queue model, C11_*_trans) + linearizability theorem from regenerated lock facts + exact differential correspondence + concurrent-history linearizability search",
     ref="DESIGN.md §6 C11")
 
 CLAIMED["C14"] = dict(
     text="Lean theorems about the NextFireTime loop with the location abstracted to arbitrary functions (offset in force at an instant; the instant time.Date names for a reading): soundness, no matching local reading passed over unless none of the code's candidate instants shows it after prev (gap / earlier pass of an overlap), expiry only when that holds for every matching reading ahead, termination, exactness when the offset does not change between prev and the candidate, strictly advancing chains — with NO assumption on how time.Date resolves gaps and overlaps. Tie: differential execution in IANA zones (transitions read with ZoneBounds, time.Date's two-lookup resolution transcribed and compared) around transitions, judged by a per-second wall-clock oracle that permits only the documented latitude.",
     note="tzdata and time.Date's choice of occurrence are trusted/observed; the theorems do not depend on them",
-    technique="Lean 4 proof over an abstract zone (loop invariant + measure; proved negation of the full-strength expiry clause = known finding) + differential correspondence in IANA zones",
+    technique="Lean 4 proof over an abstract zone (loop invariant + measure; proved negation of the full-strength expiry clause = known finding) about NextFireTime TRANSLATED from quartz/cron.go + internal/csm on every run (C14_*_transCron) + differential correspondence in IANA zones",
     ref="DESIGN.md §6 C14")
 CLAIMED["C09"] = dict(
     text="Lean theorems: (concurrent part) threads whose multi-step bodies run under one mutex are linearizable in lock-acquisition order under every schedule (Lock.linearizable), instantiated with the registry calls and the dispatch step; its premise is a regenerated fact (every StdScheduler method makes all queue calls after queueLocker.Lock(); defer Unlock(); the only unlocked queue calls are the loop's read-only Size/Head). (sequential part) error => registry unchanged, sentinel iff precondition, unique keys in every reachable state (Theorems/C09.lean, when present in the evidence). Tie: exact differential of every API call against the real scheduler (gated queue), an independent precondition oracle in the harness, and a linearizability search over recorded concurrent histories with default and copying queues.",
     note="sync.Mutex = mutual exclusion is assumed; the linearizability search on recorded histories is validation, not the proof",
-    technique="Lean 4 linearizability theorem (inductive invariant over all schedules) + regenerated lock-dominance facts + differential correspondence",
+    technique="Lean 4 linearizability theorem (inductive invariant over all schedules) + registry methods TRANSLATED from quartz/scheduler.go on every run and proved equal to the model for any queue (trans_ScheduleJob … C09_*_error_unchanged_trans) + regenerated lock-dominance and clock-order facts + differential correspondence",
     ref="DESIGN.md §6 C09")
 
 CLAIMED["C03"] = dict(
     text="Lean theorems over ALL histories of (API call | dispatch step at an arbitrary clock reading) of the scheduler model: a dispatched entry is the popped minimum, not suspended, with fire time <= now and >= now - threshold (C03_never_early, C03_dispatch_is_popped_min); there is an injection from dispatches to EARLIER calls of the job's own trigger that returned exactly that fire time (C03_own_trigger_once => own fire time, at most once). Steps at arbitrary times cover spurious/stale wake-ups and foreign queue changes. Tie: validateJob/fetchAndReschedule facts pinned by decide (operators, operands, trigger argument per branch, order lock-pop-classify-next-push-reset); every real dispatch step (released one at a time through a gated JobQueue) compared exactly with the model; concurrent stress runs (3 modes x 1-3 schedulers sharing queue+lock x both timer-channel semantics) judged for early/duplicate/unowned executions.",
     note="real-time jitter: fire times placed >= 10 min from classification boundaries; concurrency of the real loop is observed (stress), the theorems are about the model's atomic steps, atomicity = lock facts of C09",
-    technique="Lean 4 invariant proofs over all histories + regenerated facts + step-by-step differential (gated queue) + concurrent conformance",
+    technique="Lean 4 invariant proofs over all histories about the dispatch step TRANSLATED from quartz/scheduler.go on every run (trans_validateJob, trans_fetchAndReschedule, C03_never_early_trans / _any_queue) + regenerated facts + step-by-step differential (gated queue) + concurrent conformance",
     ref="DESIGN.md §6 C03/C04/C08")
 CLAIMED["C04"] = dict(
     text="Lean theorems: every popped active fire time is exactly one of executed (next computed from the scheduled time), misfired (iff now - f > threshold; offered; re-based on now) or not due (re-pushed unchanged) with registry accounting as multisets (C04_accounted, C04_misfire_iff_late); trigger reports no further fire time => job leaves the registry, still dispatched if it was on time (C04_leaves_registry); no drift for interval triggers regardless of the actual clock readings (C04_no_drift); a run-once job is dispatched exactly once and then absent (C04_run_once), hypotheses shown reachable. Tie as C03; the harness additionally checks that the trigger received the scheduled time (valid) or the current time (outdated, ScheduleJob, ResumeJob) by bracketing the call with clock readings.",
     note="as C03",
-    technique="Lean 4 case-exhaustive step theorem + history invariants (int64 saturation of interval triggers modelled) + regenerated facts + step-by-step differential",
+    technique="Lean 4 case-exhaustive step theorem + history invariants about the dispatch step and the interval triggers TRANSLATED from the source on every run (trans_fetchAndReschedule, trans_addNanos, C04_accounted_trans) + regenerated facts + step-by-step differential",
     ref="DESIGN.md §6 C03/C04/C08")
 CLAIMED["C08"] = dict(
     text="Lean theorems: a successful pause keeps the entry listed, suspended, parked at MaxInt64 with the same trigger state (C08_pause_effect); for every continuation not touching the key no trigger call, dispatch or misfire of that job occurs and it stays listed as paused (C08_paused_no_consumption[_reachable]); after delete/clear the job is never popped again (C08_delete_effect, C08_clear_effect); resume re-activates with the trigger's answer to the clock reading of the resumption (C08_resume_from_now). Tie as C03 plus concurrent pause/resume/delete storms judged against the return times of the API calls.",
     note="'already dequeued' = the loop step happened before the API call acquired the queue lock (lock facts of C09)",
-    technique="Lean 4 invariant proofs over all continuations + regenerated facts + differential + concurrent conformance",
+    technique="Lean 4 invariant proofs over all continuations + PauseJob/ResumeJob/DeleteJob/Clear and the dispatch step TRANSLATED from the source on every run and proved equal to the model + regenerated facts (locks, clock order) + differential + concurrent conformance",
     ref="DESIGN.md §6 C03/C04/C08")
 
 CLAIMED["C10"] = dict(
